@@ -7,7 +7,6 @@ import (
 	"github.com/go-kid/ioc/definition"
 	"github.com/go-kid/ioc/syslog"
 	"github.com/go-kid/ioc/util/el"
-	"github.com/go-kid/strconv2"
 	"github.com/pkg/errors"
 )
 
@@ -48,7 +47,7 @@ func (c *expressionTagAwarePostProcessors) PostProcessProperties(properties []*c
 			if err != nil {
 				return "", errors.Wrapf(err, "execute expression '%s' program error", exp)
 			}
-			val, err := strconv2.FormatAny(result)
+			val, err := formatValue(result)
 			if err != nil {
 				return "", errors.Wrapf(err, "marshal expression tag value %v error", result)
 			}
